@@ -92,7 +92,9 @@ CrashEquiv(e) ==
   \cup (IF Success(e.a.rc) /\ Success(e.b.rc)
         THEN CanonDiff(e.a.state, e.a.disk, e.b.state, e.b.disk) ELSE {})
   \cup (IF Success(e.a.rc) /\ Success(e.b.rc)
-        THEN {<<"leftover_file_after_restart", p>> :
+        THEN {<<"leftover_file_after_restart", p,
+                 \* F5: the file was queued for removal in memory only when the process died
+                 IF p \in SeqSet(e.info.lost_queue) THEN "F5-cleanup-queue-lost-in-crash" ELSE "">> :
                  p \in (DOMAIN e.a.disk.files) \ (DOMAIN e.b.disk.files)}
         ELSE {})
   \cup {<<"restart_raised", x>> : x \in SeqSet(e.info.errors)}
